@@ -54,7 +54,7 @@ def _infer_len(lens_hi, len_lo, L, mode, J):
 def install():
     import torch
     import pytorch_wavelets as pw
-    from pytorch_wavelets import _verif
+    from harness.hooks import _verif
     from harness import hookmap
     if not _verif.ENABLED:
         return
